@@ -46,6 +46,39 @@ def reap_loop_ok(ctx, func, loop, what):
     ctx.check(rule, f'{F}: survivors get SIGTERM', bool(fb), F, f'reap-no-sigterm-fallback[{what}]', 'a child that survives terminate() is not signalled', where=loc(func, loop))
 
 
+def check_context_reaping(ctx, RCW):
+    """must-pass-through, wherever the reaping call `self._target(None, _clean=True)` lives: in do_work (then every exit after the call of the
+    inherited work loop passes it) or in an override of the _cleanup hook that the child-main runs in its finally (then every exit of the
+    hook passes it, whatever the inherited hook raises first)"""
+    def is_clean(c):
+        return last_attr(c) == '_target' and any(k.arg == '_clean' and isinstance(k.value, ast.Constant) and k.value.value is True for k in c.keywords)
+    homes = [f for f in RCW.methods.values() if any(is_clean(c) for c in calls_in(f.node))]
+    if not homes:
+        return False, [], RCW.relpath if hasattr(RCW, 'relpath') else None
+    ok_all, pth, where = True, [], None
+    for f in homes:
+        ctx.used(f)
+        if f.name not in ('do_work', '_cleanup'):
+            ok_all, where = False, loc(f, f.node)
+            continue
+        g = ctx.an.cfg(f, RCW)
+        clean_ids = {n.id for n in g.nodes if n.stmt is not None and n.part == 'post' and any(is_clean(c) for c in n.calls())}
+        if f.name == 'do_work':
+            starts = [n for n in g.nodes if n.stmt is not None and n.part == 'eval' and any(last_attr(c) == 'do_work' and receiver(c) == 'super()' for c in n.calls())]
+        else:
+            starts = [g.entry]
+        if not starts or not clean_ids:
+            ok_all, where = False, loc(f, f.node)
+            continue
+        exits = {n.id for n in g.exits()}
+        # an exception of the reaping call itself is not a way around it
+        edge_ok = lambda e: e.kind != 'async' and not (e.kind == 'exc' and e.call is not None and is_clean(e.call))
+        p = g.find_path(starts, lambda n: n.id in exits, edge_ok=edge_ok, node_ok=lambda n: n.id not in clean_ids)
+        if p is not None:
+            ok_all, pth, where = False, path_str(p), loc(f, f.node)
+    return ok_all, pth, where
+
+
 def _stmt_of(pm, node):
     while node in pm and not isinstance(node, ast.stmt):
         node = pm[node]
@@ -123,11 +156,12 @@ def run(ctx):
     RCW = P.cls('RemoteContextWorker')
     dw = RCW.methods['do_work']
     ctx.used(cwf, dw)
-    tr = [x for x in walk_local(dw.node) if isinstance(x, ast.Try) and x.finalbody]
-    ok = bool(tr) and any(last_attr(c) == '_target' and any(k.arg == '_clean' and isinstance(k.value, ast.Constant) and k.value.value is True for k in c.keywords)
-                          for st in tr[0].finalbody for c in calls_in(st)) and any(last_attr(c) == 'do_work' for st in tr[0].body for c in calls_in(st))
-    ctx.check('R2', 'RemoteContextWorker.do_work reaps the context\'s children in a finally', ok, 'RemoteContextWorker.do_work', 'context-cleanup-not-in-finally',
-              'the context helper does not clean up its workers when it ends', where=loc(dw, dw.node))
+    ok, pth, where = check_context_reaping(ctx, RCW)
+    ctx.check('R2', 'RemoteContextWorker: once the work loop has started, every way the helper process ends passes the reaping of the context\'s children (`_clean`)', ok,
+              'RemoteContextWorker.do_work', 'context-cleanup-not-in-finally',
+              'the context helper can end without reaping the workers of its context (an exception - e.g. the BrokenPipeError of the end marker written to a server that is already gone - '
+              'leaves the function that contains the reaping before the reaping is reached): the children outlive the server and their parents never find out',
+              where=where, path=pth)
     clean = [st for st in cwf.node.body if isinstance(st, ast.If) and norm(st.test) == '_clean']
     ok = bool(clean)
     if ok:
